@@ -66,12 +66,90 @@ ToDoubleFn(v) ==
     [] v.t = "str"  -> D(R(AnyDbl))
     [] OTHER        -> E(ConvErr \cup {"type"})
 
+-----------------------------------------------------------------------------
+(* Numeric literal text (and the same grammars for double(string)) *)
+IsHex(c) == IsDigit(c) \/ (c >= 97 /\ c <= 102) \/ (c >= 65 /\ c <= 70)
+HexVal(c) == IF IsDigit(c) THEN c - 48 ELSE IF c >= 97 THEN c - 87 ELSE c - 55
+RECURSIVE DigitRun(_, _)
+DigitRun(cp, i) == IF i <= Len(cp) /\ IsDigit(cp[i]) THEN 1 + DigitRun(cp, i + 1) ELSE 0
+
+\* decimal floating text  D+ '.' D+ EXP? | D+ EXP | '.' D+ EXP?   (no sign) -> [ok, M, E10]
+ParseFloatBody(cp) ==
+  LET ni == DigitRun(cp, 1)
+      hasDot == ni + 1 <= Len(cp) /\ cp[ni + 1] = 46
+      nf == IF hasDot THEN DigitRun(cp, ni + 2) ELSE 0
+      j == ni + (IF hasDot THEN 1 + nf ELSE 0) + 1                       \* position after the mantissa
+      hasExp == j <= Len(cp) /\ cp[j] \in {101, 69}
+      esign == IF hasExp /\ j + 1 <= Len(cp) /\ cp[j + 1] \in {43, 45} THEN 1 ELSE 0
+      ne == IF hasExp THEN DigitRun(cp, j + 1 + esign) ELSE 0
+      endp == j + (IF hasExp THEN 1 + esign + ne ELSE 0)
+      shape == /\ endp = Len(cp) + 1
+               /\ (hasDot => nf >= 1) /\ (hasExp => ne >= 1 /\ ne <= 6)
+               /\ (ni >= 1 \/ hasDot) /\ (hasDot \/ hasExp)              \* a float has a fraction or an exponent
+      digs == [k \in 1..(ni + nf) |-> IF k <= ni THEN cp[k] - 48 ELSE cp[ni + 1 + (k - ni)] - 48]
+      ev == IF hasExp THEN (IF esign = 1 /\ cp[j + 1] = 45 THEN -1 ELSE 1) * N!ToNat(N!FromDigits([k \in 1..ne |-> cp[j + esign + k] - 48], 10)) ELSE 0
+  IN  IF ~shape \/ ni + nf > 800 THEN [ok |-> FALSE]
+      ELSE [ok |-> TRUE, M |-> N!FromDigits(digs, 10), E10 |-> ev - nf]
+
+\* does the double with words b denote the correctly rounded value of the (optionally signed) decimal text?
+\* [ok (text is a float), matches, overflow]
+FloatTextVsDouble(cp, b) ==
+  LET neg == cp # << >> /\ cp[1] = 45
+      body == IF neg THEN Tail(cp) ELSE cp
+      p == ParseFloatBody(body)
+  IN  IF ~p.ok THEN [ok |-> FALSE]
+      ELSE LET tooBig == p.E10 > 400 \/ (4 * Len(p.M) + p.E10 > 300 /\ DB!Overflows(p.M, p.E10))     \* fewer than 300 digits cannot overflow
+               tiny == p.E10 < -1200
+           IN [ok |-> TRUE, overflow |-> tooBig,
+               matches |-> IF b = << >> THEN TRUE
+                           ELSE IF tooBig THEN DB!IsInf(b) /\ DB!Neg(b) = neg
+                           ELSE /\ DB!IsFinite(b) /\ (DB!Neg(b) = neg \/ N!IsZero(p.M))
+                                /\ (IF tiny THEN DB!IsZero(b) ELSE DB!RoundsTo(p.M, p.E10, [i \in 1..4 |-> IF i = 1 THEN b[1] % 32768 ELSE b[i]]))]
+
+\* classification of a numeric literal's source text: [kind, ...]
+NumLit(cp) ==
+  LET neg == cp # << >> /\ cp[1] = 45
+      body == IF neg THEN Tail(cp) ELSE cp
+      n == Len(body)
+      isU == n >= 2 /\ body[n] \in {117, 85}
+      core == IF isU THEN SubSeq(body, 1, n - 1) ELSE body
+      isHexLit == Len(core) >= 3 /\ core[1] = 48 /\ core[2] = 120 /\ \A i \in 3..Len(core) : IsHex(core[i])
+      isDec == core # << >> /\ \A i \in 1..Len(core) : IsDigit(core[i])
+      mag == IF isHexLit THEN N!FromDigits([i \in 1..(Len(core) - 2) |-> HexVal(core[i + 2])], 16)
+             ELSE IF isDec THEN N!FromDigits(DigitsOf(core), 10) ELSE << >>
+  IN  IF (isHexLit \/ isDec) /\ Len(core) <= 60 THEN
+           (IF isU THEN (IF neg THEN [kind |-> "bad"] ELSE [kind |-> "uint", n |-> Z!Z(1, mag)])
+            ELSE [kind |-> "int", n |-> Z!Z(IF neg THEN -1 ELSE 1, mag)])
+      ELSE IF ~isU /\ ParseFloatBody(body).ok THEN [kind |-> "dbl"]
+      ELSE [kind |-> "bad"]
+
+\* what compiling and evaluating a numeric literal must give: R(value) | E({"compile"}) ; doubles are judged by LitMatches
+LitExpected(cp) ==
+  LET c == NumLit(cp) IN
+  CASE c.kind = "int"  -> IF NM!InI64(c.n) THEN R(VInt(c.n)) ELSE E({"compile"})
+    [] c.kind = "uint" -> IF NM!InU64(c.n) THEN R(VUint(c.n)) ELSE E({"compile"})
+    [] c.kind = "dbl"  -> R(AnyDbl)
+    [] c.kind = "bad"  -> D(E({"compile"}))
+
+\* string(double): the text printed must parse back (as a decimal, or NaN / inf / -inf) to the same double
+DblTextDenotes(cp, b) ==
+  IF DB!IsNaN(b) THEN cp = <<78, 97, 78>>
+  ELSE IF DB!IsInf(b) THEN cp = (IF DB!Neg(b) THEN <<45, 105, 110, 102>> ELSE <<105, 110, 102>>)
+  ELSE LET neg == cp # << >> /\ cp[1] = 45
+           body == IF neg THEN Tail(cp) ELSE cp
+           \* Rust prints integers-valued doubles without a fraction ("1", "100000"): accept D+ as well
+           asFloat == IF ParseFloatBody(body).ok THEN ParseFloatBody(body)
+                      ELSE IF AllDigits(body) /\ Len(body) <= 800 THEN [ok |-> TRUE, M |-> N!FromDigits(DigitsOf(body), 10), E10 |-> 0]
+                      ELSE [ok |-> FALSE]
+       IN  /\ asFloat.ok /\ neg = DB!Neg(b)
+           /\ DB!RoundsTo(asFloat.M, asFloat.E10, [i \in 1..4 |-> IF i = 1 THEN b[1] % 32768 ELSE b[i]])
+
 ToStringFn(v) ==
   CASE v.t = "str"   -> R(v)
     [] v.t = "int"   -> R(VStr(IntText(v.n)))
     [] v.t = "uint"  -> R(VStr(IntText(v.n)))
     [] v.t = "dbl"   -> D(R(VStr(<< >>)))
-    [] v.t = "bytes" -> D(R(VStr(<< >>)))
+    [] v.t = "bytes" -> D(R(VStr(<< >>)))      \* lossy decoding of invalid UTF-8 is not pinned (valid UTF-8 is checked via the round trip)
     [] v.t = "dur"   -> DU!ToStringDur(v)
     [] v.t = "ts"    -> D(R(VStr(<< >>)))
     [] v.t = "bool"  -> D(E(ConvErr \cup {"type"}))
